@@ -30,6 +30,8 @@ def cli_case(draw):
     return {
         "sub": "cli", "base": base, "paired": paired, "qspec": qspec, "cf": cf, "cb": cb,
         "nextseq": nextseq, "q2": q2, "r1": recs1, "r2": recs2 if paired else None,
+        # now and then worker processes: the removed-base counters are then merged from the workers' statistics
+        "cores": draw(st.sampled_from([1, 1, 1, 1, 1, 2])),
     }
 
 
@@ -75,6 +77,9 @@ def check_cli(case, ctx):
         args += ["-p", "out2.fastq", "in1.fastq", "in2.fastq"]
     else:
         args += ["in1.fastq"]
+    if case.get("cores", 1) > 1:
+        args = ["-j", str(case["cores"]), "--buffer-size", "240"] + args
+        ctx.label(f"cores:{case['cores']}")
     # -q 0 alone is treated by the CLI as "no quality trimming"; reference agrees only if cutoff 0 trims nothing
     r = cli.run(args, files)
     if r.exit != 0:
